@@ -286,7 +286,7 @@ func RunScenario(w *World, role spectypes.BeaconRole, height uint64, sc Scenario
 	}
 	mr := sc.MaxRounds
 	if mr == 0 {
-		mr = maxRoundOf(role)
+		mr = maxRoundOf(role) + 1 // one timeout beyond the role maximum: the round-change for max+1 must be ignored, not rejected
 	}
 	s.Run(valueFor(sc.SameValue, role, height), mr)
 	return s
